@@ -64,6 +64,8 @@ def build(tier: str) -> CheckSpec:
         cubes += qcommon.bmc_cubes(h_bmc, "full", 3, FULL, 2, 200, PROPS)
         cubes += qcommon.bmc_cubes(h_bmc, "order", 4, ORDER_Q, 3, 200, PROPS)
         cubes += qcommon.bmc_cubes(h_bmc, "drop", 4, DROPS, 2, 200, PROPS)
+        # two clients waiting for one marked job need five operations: only the prefixes with a drop and a wait, or two waits
+        cubes += [c for c in qcommon.bmc_cubes(h_bmc, "drop", 5, DROPS, 3, 200, PROPS) if any(x in c.name for x in ("[add,drop,wait]", "[add,wait,drop]", "[add,wait,wait]"))]
         cubes += qcommon.nf_cubes(h_nf, "nf1", 1, 2, FULL, 200, PROPS)
         cubes += qcommon.nf_cubes(h_nf, "nf2", 2, 1, FULL, 200, PROPS)
         b = {"full": 3, "order": 4, "normal-form prefix": "1 staged job + 2 symbolic operations; 2 staged jobs + 1"}
